@@ -332,6 +332,21 @@ fn run(ctx: &mut Ctx) {
                 if bb.min_len > 6 {
                     bb.min_len = 2;
                 }
+                // half of the time B differs from A ONLY in presentation settings (a cache keyed on
+                // the language-relevant settings but filled with presentation-dependent values
+                // shows exactly then)
+                if c.key() & 1 == 0 {
+                    let flips = (c.key() >> 1) & 0x3f;
+                    let mut d = a.clone();
+                    if flips & 1 != 0 { d.capture = !d.capture; }
+                    if flips & 2 != 0 { d.verbose = !d.verbose; }
+                    if flips & 4 != 0 { d.escape = !d.escape; d.surrogates = false; }
+                    if flips & 8 != 0 { d.colour = !d.colour; }
+                    if flips & 16 != 0 { d.no_end = !d.no_end; }
+                    if flips & 32 != 0 { d.ignore_case = !d.ignore_case; }
+                    if flips & 0x3f == 0 { d.capture = !d.capture; }
+                    bb = d;
+                }
                 c.cfg = bb;
                 c.extra = json!({"pool": c.extra["pool"], "prev_cfg": a});
                 c
